@@ -23,6 +23,7 @@ HTML5LIB_DIR = os.path.join(env.REPO, "html5lib") + os.sep
 import xml as _xml  # noqa: E402
 XML_DIR = os.path.dirname(os.path.abspath(_xml.__file__)) + os.sep
 MAX_STEPS = 3000000
+RARE_LINES = 30
 WORKER_WALL_S = 120
 DEBUG_TRACE = None   # set to a list to record every traced step (debugging of the scheduler itself)
 
@@ -159,6 +160,28 @@ def _rebound_globals(mod):
     return found
 
 
+def _stores_attr_on_shared(code):
+    """Does this code assign or delete an attribute of an object it reaches through a module global (a module, a class, a
+    module-level instance: `constants.x = v`, `Phase.flag = v`) or through the class of an instance (`type(self).x = v`,
+    `self.__class__.x = v`)?  Such an attribute is shared by every thread whatever its value is."""
+    import dis
+    ins = list(dis.get_instructions(code))
+    for i, x in enumerate(ins):
+        if x.opname not in ("STORE_ATTR", "DELETE_ATTR") or i == 0:
+            continue
+        prev = ins[i - 1]
+        if prev.opname in ("LOAD_GLOBAL", "LOAD_NAME"):
+            return True
+        if prev.opname == "LOAD_ATTR" and prev.argval == "__class__":
+            return True
+        if prev.opname in ("CALL", "CALL_FUNCTION", "PRECALL"):
+            # type(x).attr = v
+            for back in ins[max(0, i - 6):i - 1]:
+                if back.opname in ("LOAD_GLOBAL", "LOAD_NAME") and back.argval == "type":
+                    return True
+    return False
+
+
 def _type_mutable_names(t):
     """Names of class-level mutable containers visible on instances of t (whole MRO)."""
     tm = _shared["type_mutables"]
@@ -194,7 +217,7 @@ def frame_is_hot(frame):
     if static is None:
         names = set(code.co_names)
         static = bool(names & _shared["mutable_globals"].get(frame.f_globals.get("__name__"), set())) or \
-            bool(names & INTERPRETER_WIDE_NAMES)
+            bool(names & INTERPRETER_WIDE_NAMES) or _stores_attr_on_shared(code)
         if not static and code.co_freevars:
             loc = frame.f_locals
             static = any(isinstance(loc.get(fv), _MUTABLE) for fv in code.co_freevars)
@@ -240,12 +263,22 @@ class _Worker(object):
 
 
 class Baton(object):
-    def __init__(self, fns, rng=None, quanta=None, p_hot=0.5, p_warm=0.02, p_cold=0.005, opcodes=True, opcodes_all=False, p_sleep=0.0):
+    def __init__(self, fns, rng=None, quanta=None, p_hot=0.5, p_warm=0.02, p_cold=0.005, opcodes=True, opcodes_all=False, p_sleep=0.0, p_rare=0.0):
         # long suspensions: a thread pre-empted inside a hot function it has entered only a few times in this run (a rarely
         # executed piece of code that touches shared state) may be put to SLEEP while the others make a few hundred to a few
         # ten thousand steps - under uniform random choice at every pre-emption point a thread never stays parked that long;
         # a thread that arrives in the function another one sleeps in wakes it and goes to sleep itself (rendezvous)
         self.p_sleep = p_sleep
+        # rarely executed code: the first RARE_LINES line events of every (thread, function) are pre-empted with p_rare
+        # even in frames nothing marks as touching shared state - the per-line probability of a cold frame is right for
+        # code that runs thousands of lines per call (the token loop), not for a helper that runs once per document
+        self.p_rare = p_rare
+        self.base_state = None    # interpreter-wide settings at the start of the run (see _yield)
+        self.q_state = None       # ... and when the running thread was last handed the baton
+        self.dirty_windows = 0
+        self.sleepers = 0         # > 0: some thread may be asleep (upper bound, recomputed by the scheduler)
+        self.lines = {}           # (tid, code) -> line events seen
+        self.rare_preemptions = 0
         self.calls = {}           # (tid, code) -> number of frames of that code entered by that thread in this run
         self.sleeps = 0
         self.rendezvous = 0
@@ -318,6 +351,15 @@ class Baton(object):
                     if not w.countdown:
                         baton._yield(w, frame, True)
                         return local
+                if not hot and baton.p_rare:
+                    key = (w.tid, frame.f_code)
+                    n = baton.lines.get(key, 0)
+                    if n < RARE_LINES:
+                        baton.lines[key] = n + 1
+                        if baton.rng.random() < baton.p_rare:
+                            baton.rare_preemptions += 1
+                            baton._yield(w, frame, False, True)
+                        return local
                 if baton.rng.random() < p:
                     baton._yield(w, frame, hot)
                 return local
@@ -343,11 +385,11 @@ class Baton(object):
             if fn.startswith(XML_DIR):
                 return budget_only
             if fn.startswith(prefix):
-                if baton.p_sleep:
+                if baton.replay is None:
                     code = frame.f_code
                     key = (w.tid, code)
                     baton.calls[key] = baton.calls.get(key, 0) + 1
-                    if baton.replay is None:
+                    if baton.sleepers:
                         for o in baton.workers:
                             if o.sleep_code is code and o is not w and o.sleep_until > baton.total_steps:
                                 # another thread sleeps inside this very function: stop within its first few lines
@@ -363,7 +405,7 @@ class Baton(object):
             return None
         return tracer
 
-    def _yield(self, w, frame, hot=None):
+    def _yield(self, w, frame, hot=None, rare=False):
         if self.overrun:
             return
         others = [o for o in self.workers if not o.done and o is not w]
@@ -373,11 +415,25 @@ class Baton(object):
         name = frame.f_code.co_name
         if hot is None:
             hot = frame_is_hot(frame)
+        dirty = False
+        cur_state = _coldstate.interp_state() if self.base_state is not None else None
+        if cur_state != self.base_state and cur_state != self.q_state:
+            # this thread is about to be parked while an interpreter-wide setting differs from what the run started
+            # with: a window in which other threads see the change.  Remember the code (hot from now on, in this process
+            # and in the replay) and keep the thread parked for long.
+            dirty = True
+            self.dirty_windows += 1
+            _learned["codes"].add(frame.f_code)
+            if self.replay is None:
+                w.sleep_until = self.total_steps + 30000
+                w.sleep_code = frame.f_code
+                self.sleepers += 1
         if hot:
             self.hot_preemptions += 1
             w.hot_yields += 1
             self.order_digest.append((w.tid, name, frame.f_lineno))
-            if self.p_sleep and self.replay is None and self.calls.get((w.tid, frame.f_code), 0) <= 3:
+        if (hot or rare) and not dirty:
+            if self.replay is None and self.calls.get((w.tid, frame.f_code), 0) <= 3:
                 code = frame.f_code
                 partner = None
                 for o in others:
@@ -390,10 +446,12 @@ class Baton(object):
                         partner.sleep_code = None
                         w.sleep_until = self.total_steps + self.rng.choice([3000, 30000])
                         w.sleep_code = code
+                        self.sleepers += 1
                         self.rendezvous += 1
-                elif self.rng.random() < self.p_sleep:
+                elif self.p_sleep and self.rng.random() < (self.p_sleep if hot else self.p_sleep * 0.05):
                     w.sleep_until = self.total_steps + self.rng.choice([3000, 30000])
                     w.sleep_code = code
+                    self.sleepers += 1
                     self.sleeps += 1
         self.sched_sem.release()
         w.sem.acquire()
@@ -448,6 +506,7 @@ class Baton(object):
             sources.READ_HOOK[0] = None
 
     def _run(self):
+        self.base_state = _coldstate.interp_state()
         for w in self.workers:
             w.thread = threading.Thread(target=self._run_worker, args=(w,), name="sim-worker-%d" % w.tid)
             w.thread.daemon = True
@@ -470,17 +529,19 @@ class Baton(object):
                     w = alive[0]
                     w.quantum_left = None
             else:
-                if self.p_sleep:
+                if self.sleepers:
                     awake = [x for x in alive if x.sleep_until <= self.total_steps]
                     if not awake:
                         first = min(alive, key=lambda x: (x.sleep_until, x.tid))
                         first.sleep_until = 0
                         first.sleep_code = None
                         awake = [first]
+                    self.sleepers = sum(1 for x in alive if x.sleep_until > self.total_steps)
                 else:
                     awake = alive
                 w = awake[self.rng.randrange(len(awake))] if len(awake) > 1 else awake[0]
             self._cur_steps = 0
+            self.q_state = _coldstate.interp_state()
             w.sem.release()
             if not self.sched_sem.acquire(timeout=WORKER_WALL_S):
                 import faulthandler
@@ -535,6 +596,32 @@ def gen_case(rng):
         return {"prop": "C12", "stream": "M3", "threads": threads, "cold": rng.random() < 0.5,
                 "sched_seed": rng.getrandbits(48), "p_hot": rng.choice([0.5, 0.2, 0.05]),
                 "p_cold": rng.choice([0.005, 0.001, 0.02]), "opcodes": rng.random() < 0.3}
+    if rng.random() < 0.06:
+        # one long call, blocked again and again inside the reads of a slow transport, against a BURST of many short calls
+        # in another thread (whatever is pooled, rotated or counted per call wraps around while the long call is in flight)
+        tb = rng.choice(["etree", "dom"])
+        ns = rng.random() < 0.8
+        top = rng.random() < 0.7          # through html5lib.parse / parseFragment, or through HTMLParser objects
+        hexdoc, args = rng.choice(c12.BYTE_DOCS)
+        pad = b"<!--" + b"x" * rng.randint(200, 1500) + b"-->"
+        slow = {"op": "top_parse" if top else "api_parse_bytes", "hex": (pad + hexdoc + b"<p>tail<b>of</b>the slow one").hex(), "args": dict(args),
+                "builder": tb, "ns": ns, "kind": rng.choice(["simbytes_noseek", "http_plain", "simbytes_seek"]),
+                "src": {"reads": [], "rest": rng.choice([1, 3, 16])}}
+        n_burst = rng.choice([20, 40, 70, 130])
+        burst = []
+        for k in range(n_burst):
+            doc = [rng.choice(["x", "<p>b%d" % k, "<b>y", "<table><td>z", "<title>t</title>", "&amp;", "<i>%d</i>" % k])]
+            if top:
+                b = {"op": "top_frag" if rng.random() < 0.2 else "top_parse", "doc": doc, "builder": tb, "ns": ns}
+            else:
+                b = {"op": "api_parse", "doc": doc, "builder": tb, "ns": ns, "reuse": rng.random() < 0.5}
+            burst.append(b)
+        threads = [{"ops": [slow]}, {"ops": burst}]
+        if n_threads == 3:
+            threads.append({"ops": [dict(slow, src={"reads": [], "rest": rng.choice([1, 7])})]})
+        rng.shuffle(threads)
+        return {"prop": "C12", "stream": "M3", "threads": threads, "cold": rng.random() < 0.5, "sched_seed": rng.getrandbits(48),
+                "p_hot": rng.choice([0.2, 0.05]), "p_cold": rng.choice([0.001, 0.005]), "opcodes": False, "p_sleep": 0.0, "p_rare": 0.0}
     if rng.random() < 0.08:
         # every thread works on a document that runs into one of the interpreter's limits
         for _ in range(n_threads):
@@ -548,7 +635,7 @@ def gen_case(rng):
         return {"prop": "C12", "stream": "M3", "threads": threads, "cold": rng.random() < 0.5,
                 "sched_seed": rng.getrandbits(48), "p_hot": rng.choice([0.5, 0.5, 0.2]),
                 "p_cold": rng.choice([0.005, 0.02]), "opcodes": rng.random() < 0.5, "opcodes_all": rng.random() < 0.15,
-                "p_sleep": rng.choice([0.0, 0.5, 0.8])}
+                "p_sleep": rng.choice([0.0, 0.5, 0.8]), "p_rare": rng.choice([0.0, 0.1, 0.3])}
     for _ in range(n_threads):
         ops = []
         for _ in range(rng.randint(1, 3)):
@@ -567,6 +654,9 @@ def gen_case(rng):
                     op["container"] = rng.choice(c12.FRAG_CONTAINERS)
             elif r < 0.52:
                 op = {"op": "get_builder", "builder": builder}
+                if rng.random() < 0.5:
+                    op = {"op": rng.choice(["top_parse", "top_parse", "top_frag"]), "doc": c12.pick_doc(rng, rng.choice(["setter", "observer", "soup"]))[:8],
+                          "builder": rng.choice(["etree", "dom"]), "ns": rng.random() < 0.8}
             elif r < 0.62:
                 doc = list(rng.choice(c12.SER_DOCS)) if rng.random() < 0.5 else list(rng.choice(SHARED_DOCS))
                 op = {"op": "pipeline", "doc": doc, "builder": rng.choice(["etree", "dom"]),
@@ -599,7 +689,9 @@ def gen_case(rng):
             # touching shared state
             "opcodes_all": rng.random() < 0.08,
             # long suspensions inside rarely executed hot code (see Baton.__init__)
-            "p_sleep": rng.choice([0.0, 0.0, 0.4, 0.8])}
+            "p_sleep": rng.choice([0.0, 0.0, 0.4, 0.8]),
+            # the first lines of every function a thread executes are pre-empted with this probability even in cold frames
+            "p_rare": rng.choice([0.0, 0.03, 0.1, 0.3])}
 
 
 def _api_tb(builder):
@@ -646,6 +738,22 @@ def run_api_op(op, private=None):
             else:
                 tree = p.parse("".join(op["doc"]))
             return ("ok", canon_tree(tree, op["builder"]), canon_errors(p.errors), p.documentEncoding)
+        if kind in ("top_parse", "top_frag"):
+            # the module-level convenience functions html5lib.parse / html5lib.parseFragment (what most callers use)
+            tbname = "dom" if op["builder"] == "dom" else "etree"
+            if "hex" in op:
+                payload = bytes.fromhex(op["hex"])
+                if op.get("src"):
+                    from .sources import ReadLog, make_source
+                    payload = make_source(op["kind"], payload, op["src"], ReadLog(len(payload)))
+            else:
+                payload = "".join(op["doc"])
+            if kind == "top_frag":
+                tree = html5lib.parseFragment(payload, container=op.get("container", "div"), treebuilder=tbname,
+                                              namespaceHTMLElements=op.get("ns", True), **(op.get("args") or {}))
+            else:
+                tree = html5lib.parse(payload, treebuilder=tbname, namespaceHTMLElements=op.get("ns", True), **(op.get("args") or {}))
+            return ("ok", canon_tree(tree, tbname))
         if kind == "api_serialize":
             p = html5lib.HTMLParser(tree=_api_tb(op["builder"]))
             tree = p.parse("".join(op["doc"]))
@@ -781,7 +889,7 @@ def execute(case):
         b = Baton(fns, quanta=[tuple(q) for q in case["quanta"]], opcodes=opcodes, opcodes_all=opcodes_all)
     else:
         b = Baton(fns, rng=random.Random(case["sched_seed"]), p_hot=case.get("p_hot", 0.5), p_cold=case.get("p_cold", 0.005),
-                  opcodes=opcodes, opcodes_all=opcodes_all, p_sleep=case.get("p_sleep", 0.0))
+                  opcodes=opcodes, opcodes_all=opcodes_all, p_sleep=case.get("p_sleep", 0.0), p_rare=case.get("p_rare", 0.0))
     results, errors = b.run()
     res["quanta"] = [list(q) for q in b.taken]
     res["_case"] = case
@@ -795,6 +903,12 @@ def execute(case):
         stats["faults"]["long_suspension_in_rare_hot_code"] = b.sleeps
     if b.rendezvous:
         P["rendezvous_in_rare_hot_code"] += b.rendezvous
+    if b.dirty_windows:
+        P["parked_with_interpreter_setting_changed"] += b.dirty_windows
+        stats["faults"]["thread_parked_with_interpreter_setting_changed"] = b.dirty_windows
+    if b.rare_preemptions:
+        P["preemptions_in_rarely_executed_cold_code"] += b.rare_preemptions
+        stats["faults"]["preemption_in_rarely_executed_code"] = b.rare_preemptions
     if b.io_preemptions:
         stats["faults"]["preemption_inside_source_read"] = b.io_preemptions
     if case["cold"] and b.hot_preemptions:
